@@ -21,8 +21,10 @@ import (
 	"io"
 	"log/slog"
 	"net"
+	"net/netip"
 	"os"
 	"os/exec"
+	"sort"
 	"strings"
 	"sync"
 	"syscall"
@@ -50,7 +52,7 @@ const (
 	lsnScionPort  = 11123
 	lsnReadTmo    = 20 * time.Second
 	lsnNAddr      = 4 // IP client addresses
-	lsnNPort      = 3 // sockets (ports) per address; the same port numbers on every address
+	lsnNPort      = 6 // sockets (ports) per address; the same port numbers on every address
 	lsnPortBase   = 42100
 	lsnNUnderlay  = 2
 	lsnNIA        = 3
@@ -112,6 +114,8 @@ func lsnParent(a lib.Args, variant string) func() {
 	cmd := exec.Command(exe, args...)
 	cmd.Env = append(os.Environ(), lsnChildEnv+"=1", "USE_MOCK_KEYS=true")
 	switch variant {
+	case "few":
+		cmd.Env = append(os.Environ(), lsnChildEnv+"=few", "USE_MOCK_KEYS=true")
 	case "fallback":
 		kind = "lsn.fallback"
 		cmd.Env = append(os.Environ(), lsnChildEnv+"=fallback", "USE_MOCK_KEYS=true")
@@ -233,6 +237,10 @@ func lsnEmit(tag, kind, tags, args, outs string) {
 }
 
 func lsnNote(s string) {
+	if lout == nil {
+		fmt.Println("NOTE " + s)
+		return
+	}
 	fmt.Fprintf(lout, "NOTE\t%s\n", s)
 	lout.Flush()
 }
@@ -272,6 +280,15 @@ func (s lstepS) ident() int64 {
 		return int64(s.a)
 	}
 	return int64(10 + s.a*lsnNHost + s.b)
+}
+
+// clientID is the id under which the listeners keep the state of the step's client.
+func (d *lsnDrv) clientID(s lstepS) string {
+	if s.lsn == 0 {
+		return lsnOwnAddr(byte(60 + s.a)).String()
+	}
+	h, _ := netip.AddrFromSlice(d.hosts[s.b])
+	return d.ias[s.a].String() + "," + h.String()
 }
 
 func (s lstepS) sock() int64 {
@@ -729,7 +746,35 @@ func (d *lsnDrv) runLsnHistory(steps []lstepS) {
 	add(nInter > 0 && nCross > 0, "nt")
 	// with several listener goroutines a report cannot be attributed with certainty: the strict clauses
 	// are evaluated only when there was none
-	lsnEmit("CASE", "lsn.hist", strings.Join(tags, ","), args, lib.V(lib.L(outs...), lib.Bool(nfail == 0), lib.I(int64(nfail))))
+	// the store the history leaves behind: the key of every item, and the ids of the clients that were answered
+	snap := server.VerifSnapshotTSS()
+	var obsKeys, expKeys []string
+	for _, it := range snap.Items {
+		obsKeys = append(obsKeys, it.Key)
+	}
+	seenID := map[string]bool{}
+	for i, s := range steps {
+		if s.mode == 5 || !reps[i].got {
+			continue
+		}
+		id := d.clientID(s)
+		if !seenID[id] {
+			seenID[id] = true
+			expKeys = append(expKeys, id)
+		}
+	}
+	sort.Strings(obsKeys)
+	sort.Strings(expKeys)
+	bs := func(l []string) string {
+		o := make([]string, len(l))
+		for i, k := range l {
+			o[i] = lib.B([]byte(k))
+		}
+		return lib.L(o...)
+	}
+	add(len(expKeys) >= 2, "several-clients")
+	lsnEmit("CASE", "lsn.hist", strings.Join(tags, ","), args,
+		lib.V(lib.L(outs...), lib.Bool(nfail == 0), lib.I(int64(nfail)), bs(obsKeys), bs(expKeys)))
 }
 
 // ---- generator ----
@@ -800,7 +845,7 @@ func genLsnHistory(r *lib.Rng, n int) []lstepS {
 		s := lstepS{lsn: p.lsn, a: p.a, k: -1, x: r.U64(), y: r.U64(), z: r.U64()}
 		if p.lsn == 0 {
 			s.b = r.Intn(lsnNPort)
-			if r.Intn(3) != 0 {
+			if r.Intn(3) == 0 {
 				s.b = 0
 			}
 		} else {
@@ -901,6 +946,9 @@ func lsnChild(a lib.Args) {
 	n := 160
 	if a.Tier == "thorough" {
 		n = 2500
+	}
+	if os.Getenv(lsnChildEnv) == "few" { // C07 only looks at the store the histories leave behind
+		n /= 4
 	}
 	for i := 0; i < n && !d.lost; i++ {
 		ln := 6 + r.Intn(30)
